@@ -96,3 +96,40 @@ def check_planar(case):
         if angdiff(r, want) > 1e-6:
             out.append(f"torsion-{tag}:planar {name}: got {r}, expected {want} for exactly coplanar points {[tuple(p) for p in pts]}")
     return out
+
+
+# ------------------------------------------------------------------ glycosidic chi of the residues of a structure
+def iupac_dihedral(p0, p1, p2, p3):
+    """IUPAC torsion of four points (own formula: atan2 of the scalar triple product and the dot product of the two plane normals)"""
+    b0, b1, b2 = p1 - p0, p2 - p1, p3 - p2
+    n1, n2 = np.cross(b0, b1), np.cross(b1, b2)
+    return math.atan2(float(np.dot(np.cross(n1, n2), b1 / np.linalg.norm(b1))), float(np.dot(n1, n2)))
+
+
+def check_chi(path):
+    """Residue3D.chi of every nucleotide of a corpus structure, under its own letter and under letters that say neither purine nor
+    pyrimidine ('N', '?', 'x'): the IUPAC torsion O4'-C1'-N9-C4 when the base is bonded through N9 (a purine: the atoms are there),
+    else O4'-C1'-N1-C2, NaN when the quadruple is incomplete"""
+    from gen import structures as G
+    from rnapolis.tertiary import Residue3D
+    errs = []
+    for r in G.load(path).residues[:60]:
+        pos = {}
+        for a in r.atoms:
+            pos.setdefault(a.name, np.array([a.x, a.y, a.z]))
+        if "C1'" not in pos or "O4'" not in pos:
+            continue
+        for letter in (r.one_letter_name, "N", "?", "x"):
+            up = letter.upper()
+            if up in ("A", "G"):
+                quad = ["O4'", "C1'", "N9", "C4"]
+            elif up in ("C", "U", "T"):
+                quad = ["O4'", "C1'", "N1", "C2"]
+            else:
+                quad = ["O4'", "C1'", "N9", "C4"] if all(n in pos for n in ("N9", "C4")) else ["O4'", "C1'", "N1", "C2"]
+            want = iupac_dihedral(*[pos[n] for n in quad]) if all(n in pos for n in quad) else math.nan
+            got = Residue3D(r.label, r.auth, r.model, letter, r.atoms).chi
+            if math.isnan(want) != math.isnan(got) or (not math.isnan(want) and abs(angdiff(want, got)) > 1e-6):
+                errs.append(f"{r.full_name} as '{letter}': chi {got} instead of the IUPAC torsion {'-'.join(quad)} = {want}")
+                break
+    return errs[:5]
